@@ -304,9 +304,12 @@ def check_connection(case, conn):
             cum += len(m)
         return len(st)
     glen = len(data) - len(rest)
-    if sel is None or delivered_when_byte(glen) < 2:
+    if sel is None:
         return key, (f'connection received {rest.hex()} after the greeting although the proxy had not '
                      f'selected an offered method (replies {st[:2].hex()})')
+    if delivered_when_byte(glen) < 2:
+        return key, (f'connection received {rest.hex()} after the greeting before this connection\'s method '
+                     f'selection had been delivered to the client ({delivered_when_byte(glen)} reply bytes read)')
     if sel == 2:
         u = parse_userpass(rest)
         want_u = dict(ver=1, ulen=len(user), user=user, plen=len(auth[1].encode()),
@@ -755,6 +758,59 @@ def impl_cc(mods, proto, auth, dests, plan, sched):
     return w
 
 
+def cs_cases(deep, rng):
+    """concurrent handshakes with SEGMENTED replies: call A is parked in a recv with part of a
+    reply already handed to its protocol object while call B runs - on the same SOCKSProxy
+    object and on two different ones (any state shared between protocol objects, proxy objects
+    or at class level shows up as bytes on the wrong connection).  The bytes A holds back are
+    chosen to look like a method selection / status (`05 00`, `05 02`, `01 00`): the ordinary
+    start of an RFC 1928 reply, and bound addresses / ports such as 10.5.2.7 and 1282.
+    A call = (proto, auth, destination, port, reply stream, segment lengths)."""
+    creds = ('user', 'pass')
+    dest_a, dest_b = (('n', 'one.example'), 1001), (('4', bytes([10, 0, 0, 2])), 1002)
+    replies = [bytes([5, 0, 0, 1, 10, 5, 2, 7, 0, 80]), bytes([5, 0, 0, 1, 10, 5, 0, 7, 5, 2]),
+               bytes([5, 0, 0, 3, 4, 5, 2, 1, 0, 5, 0]), bytes([5, 0, 0, 1, 0, 0, 0, 0, 0, 0])]
+    for auth_a in (None, creds):
+        pre_a = b'\x05\x02\x01\x00' if auth_a else b'\x05\x00'
+        for reply in (replies if deep else replies[:3]):
+            stream_a = pre_a + reply
+            cuts = range(len(pre_a) + 1, len(stream_a))
+            for cut in cuts:
+                for extra in ((), (2,)):
+                    segs_a = [len(pre_a), cut - len(pre_a)] + list(extra)
+                    for auth_b, stream_b in ((creds, GRANT5A), (creds, GRANT['5']), (None, GRANT['5'])):
+                        for shared in (True, False):
+                            if shared and auth_a != auth_b:
+                                continue        # one proxy object has one set of credentials
+                            calls = [('5', auth_a) + dest_a + (stream_a, segs_a),
+                                     ('5', auth_b) + dest_b + (stream_b, [2])]
+                            ks = range(3, 16) if deep else (5, 7, 8, 9, 10, 11, 13)
+                            for k in ks:
+                                yield calls, shared, [0] * k + [1] * 40
+                            yield calls, shared, [rng.randrange(2) for _ in range(60)]
+    # SOCKS4a next to SOCKS5 (the classes share a base class), and two SOCKS4 calls
+    for k in (4, 5, 6, 7, 8):
+        yield ([('4a', None) + dest_a + (GRANT['4a'], [3, 2]), ('5', creds) + dest_b + (GRANT5A, [2])],
+               False, [0] * k + [1] * 40)
+        yield ([('5', None) + dest_a + (b'\x05\x00' + replies[0], [2, 2, 3]), ('4', None) + dest_b + (GRANT['4'], [1])],
+               False, [0] * (k + 2) + [1] * 40)
+
+
+def impl_cs(mods, calls, shared, sched):
+    w = sw.World(yields=True)
+    coros, proxies = {}, {}
+    with sw.patched(mods, w):
+        for i, (proto, auth, host, port, stream, segs) in enumerate(calls):
+            key = (proto, auth) if shared else i
+            if key not in proxies:
+                proxies[key] = sw.make_proxy(mods, proto, auth)
+            w.add_call(i, [[('t', stream, list(segs))]])
+            coros[i] = proxies[key].create_connection(sw.Factory(), sc.host_string(host), port)
+        with sw.watchdog(5.0):
+            sw.run_interleaved(w, coros, sched)
+    return w
+
+
 def rs_cases():
     """create_connection(resolve=True): the destination resolves to several addresses, each is
     asked of the proxy in turn (`_connect`); every connection must carry the address it was
@@ -931,6 +987,47 @@ def eval_cc(ctx, cases, res, scope_name):
     res['scopes'][scope_name] = res['scopes'].get(scope_name, 0) + len(cases)
 
 
+def cs_json(calls, shared, sched):
+    return {'op': 'cs', 'shared_proxy': shared, 'schedule': sched,
+            'calls': [{'proto': pr, 'auth': list(au) if au else None, 'host': sc.enc_host(h), 'port': po,
+                       'stream': st.hex(), 'segments': list(sg)} for pr, au, h, po, st, sg in calls]}
+
+
+def eval_cs(ctx, cases, res, scope_name):
+    """concurrent calls with segmented replies (one proxy object or several): the bytes each
+    proxy connection received are judged for the call that opened it; per call, result and
+    bytes equal the model's sequential `px` (the model has no shared state at all)"""
+    cases = list(cases)
+    _init(ctx.repo)
+    lines, texts, metas = [], [], []
+    for calls, shared, sched in cases:
+        w = impl_cs(_mods, calls, shared, sched)
+        cj = None
+        parked = False
+        for i, (proto, auth, host, port, stream, segs) in enumerate(calls):
+            case = (proto, host, port, auth)
+            call = w.calls[i]
+            bad = oracle_px(_mods, case, call.result or ('exc', sc.Livelock()), call.conns)
+            text = px_text(call.result, call)
+            if bad:
+                cj = cj or cs_json(calls, shared, sched)
+                res.violation(bad[0], cj, f'call {i} ({sc.enc_host(host)}:{port}): {bad[1]}', impl=text[:300])
+            lines.append('px ' + sc.enc_case(case) + ' ' + (stream.hex() or '-'))
+            texts.append(text)
+            metas.append((calls, shared, sched, i))
+            parked = parked or any(0 < n < k for c in call.conns for k, n in c.recvs)
+        res.count('cs_calls', len(calls))
+        res.count('cs_with_partial_recv', parked)
+        res.nontrivial(('cs', shared, tuple((c[0], c[1] is not None, c[4], tuple(c[5])) for c in calls),
+                        tuple(sched[:20])))
+    model = ctx.model(lines)
+    for (calls, shared, sched, i), t, m in zip(metas, texts, model or texts):
+        if m != t:
+            res.disagreement(dict(cs_json(calls, shared, sched), call=i), t[:400], m[:400])
+    res['evaluations'] += len(cases)
+    res['scopes'][scope_name] = res['scopes'].get(scope_name, 0) + len(cases)
+
+
 def eval_rs(ctx, cases, res, scope_name):
     cases = list(cases)
     _init(ctx.repo)
@@ -965,8 +1062,9 @@ RULE = ('case = (protocol class, destination, port, credentials); the real const
         'accepted) are compared with the model and judged by server-side parsers written from '
         'the protocol documents; px/cc/rs cases drive the public create_connection on a fake '
         'network (1..3 proxy addresses with failures at every stage of the handshake, two or '
-        'three concurrent calls on one proxy object under several schedules, several remote '
-        'addresses) and judge the bytes each proxy connection received; distinct non-trivial = '
+        'three concurrent calls on one proxy object under several schedules - also with '
+        'segmented replies, one call parked in mid-reply while the other runs, on one and on two '
+        'proxy objects -, several remote addresses) and judge the bytes each proxy connection received; distinct non-trivial = '
         'distinct cases inside the property\'s quantifier (expressible or inexpressible; '
         'lone-surrogate credentials, names the real NetAddress refuses and stub-only inputs are '
         'counted separately), plus distinct multi-connection scenarios')
@@ -985,6 +1083,7 @@ def run(ctx):
     # (b) through create_connection: fall-back, concurrency, several remote addresses
     eval_px(ctx, px_cases(ctx.deep, rng), res, 'create_connection_fallback', rng if ctx.deep else None)
     eval_cc(ctx, cc_cases(ctx.deep, rng), res, 'create_connection_concurrent')
+    eval_cs(ctx, cs_cases(ctx.deep, rng), res, 'create_connection_concurrent_segmented')
     eval_rs(ctx, rs_cases(), res, 'create_connection_resolve')
     # (c) exhaustive scopes
     evaluate(ctx, corner_cases(), res, 'address_and_credential_corners')
@@ -1040,6 +1139,10 @@ def replay(ctx, case):
         eval_cc(ctx, [(case['proto'], tuple(case['auth']) if case['auth'] else None,
                        [(dec_host(h), p) for h, p in case['dests']],
                        [[dec_attempt(t) for t in g] for g in case['plan']], case['schedule'])], res, 'replay')
+    elif op == 'cs':
+        eval_cs(ctx, [([(c['proto'], tuple(c['auth']) if c['auth'] else None, dec_host(c['host']), c['port'],
+                         bytes.fromhex(c['stream']), c['segments']) for c in case['calls']],
+                       case['shared_proxy'], case['schedule'])], res, 'replay')
     elif op == 'rs':
         eval_rs(ctx, [(case['proto'], [[dec_attempt(t) for t in g] for g in case['plan']])], res, 'replay')
     else:
